@@ -1,4 +1,5 @@
 from props.common import *
+import props.c08 as _c08
 from props.c08 import oracle_mgr, nontrivial_mgr
 
 SOAK_OK = "returned=all once=1 offered=1 overlap=0 quiesce=1 lock=free"
@@ -26,7 +27,9 @@ SPEC = dict(
     lean_module="NV.Props.C09",
     areas=[dict(name="mgr", n_quick=4000, n_thorough=160000, shards_thorough=8,
                 oracle=lambda c, i: oracle_mgr(c, i, "c09"), nontrivial=nontrivial_mgr, timeout=1200),
-           dict(name="mgrc", n_quick=40, n_thorough=1600, shards_thorough=8, oracle=oracle_soak, timeout=1200)],
+           dict(name="mgrc", n_quick=40, n_thorough=1600, shards_thorough=8, oracle=oracle_soak, timeout=1200),
+           # a probe that only returns at its own 5 s deadline must not starve the next candidate's probe (failover)
+           dict(name="mgrx", n_quick=1, n_thorough=3, shards_thorough=1, oracle=_c08.oracle_mgrx, timeout=300)],
     level_text="(1) Lock discipline from the source: the control-flow graphs of every Manager/activeEnpoint method that touches a lock are "
                "regenerated (go/cfg) on every run and projected on m.mu write/read and e.mu write/read/any; a kernel-checked certificate "
                "(mu_balanced, lifted to EVERY path of any length by cert_sound) shows each exit gives back what it took, every …Locked "
